@@ -61,6 +61,12 @@ TARGETS = [
     ('cardutil/pinblock.py', 'Iso4PinBlock.to_bytes', {}, 'bytes'),
     ('cardutil/pinblock.py', 'Iso4PinBlock.from_bytes', {}, 'str',
      {'classmethod': True, 'params': [('pin_block', 'bytes')]}),
+    # the element layout: `_pytype_to_string` and the text encoding are PARAMETERS of the translated function (any
+    # function of that type); the value is a str-or-bytes sum, the configuration entry a record
+    ('cardutil/iso8583.py', '_get_field_length', {'bit_config': 'cfg'}, 'int'),
+    ('cardutil/iso8583.py', '_field_to_iso8583', {}, 'bytes',
+     {'params': [('bit_config', 'cfg'), ('field_value', 'sb'), ('encoding', 'codec')],
+      'extern': {'_pytype_to_string': ([('field_data', 'sb'), ('bit_config', 'cfg')], 'sb', True)}}),
     # BitArray with its default big-endian order (`self.endian` is read from the class attribute; both call sites use it)
     ('cardutil/BitArray.py', 'BitArray.tolist', {}, ('list', 'bool'), {'readonly': True}),
     ('cardutil/BitArray.py', 'BitArray.fromlist', {'bytelist': ('list', 'bool')}, None),
@@ -103,6 +109,12 @@ def lean_type(t):
         return 'Bool'
     if t == 'none':
         return 'Unit'
+    if t == 'cfg':
+        return 'Rt.BitCfg'
+    if t == 'sb':
+        return 'Rt.SB'
+    if t == 'codec':
+        return '(Text → Outcome Bytes)'
     if isinstance(t, tuple) and t[0] == 'list':
         return f'(List {lean_type(t[1])})'
     if isinstance(t, tuple) and t[0] == 'tuple':
@@ -346,6 +358,9 @@ class Translator:
             if rt in ('str', 'bytes', 'char', 'byte') and lt == 'int':
                 want = 'str' if rt in ('str', 'char') else 'bytes'
                 return f'(Rt.mulSeq {self.coerce(rc, rt, want)} {lc})', want
+        if isinstance(op, ast.Pow) and lt == 'int' and rt == 'int' and (self.const_int(node.left) or 0) > 0:
+            # a positive literal raised to a (non-negative) int
+            return f'({lc} ^ ({rc}).toNat)', 'int'
         if isinstance(op, ast.FloorDiv) and lt == 'int' and rt == 'int':
             n = self.const_int(node.right)
             if n is None or n <= 0:
@@ -415,6 +430,8 @@ class Translator:
                 raise Untranslatable('struct.unpack of a non-bytes value')
             return self.hoist(f"(Rt.unpack{v.args[0].value[1]} {rc})", 'int')
         vc, vt = self.expr(node.value, env)
+        if vt == 'cfg':
+            return self.cfg_field(vc, node.slice)
         if is_dict(vt):
             kc, kt = self.expr(node.slice, env)
             return self.hoist(f'(Rt.dictGet {vc} {self.coerce(kc, kt, "str")})', vt[2])
@@ -441,8 +458,29 @@ class Translator:
         v, t = self.hoist(f'(Rt.getItem {vc} {ic})', elem_type(vt))
         return v, t
 
+    CFG_FIELDS = {'field_type': 'str', 'field_length': 'int'}
+
+    def cfg_field(self, code, key):
+        if isinstance(key, ast.Constant) and key.value in self.CFG_FIELDS:
+            return f'({code}).{key.value}', self.CFG_FIELDS[key.value]
+        raise Untranslatable('configuration entry other than field_type / field_length')
+
     def call(self, node, env):
         f = node.func
+        if isinstance(f, ast.Attribute) and f.attr == 'get' and len(node.args) == 1 and not node.keywords \
+                and isinstance(f.value, ast.Name) and env.get(f.value.id, (None, None))[1] == 'cfg':
+            return self.cfg_field(env[f.value.id][0], node.args[0])
+        if isinstance(f, ast.Attribute) and f.attr == 'encode' and len(node.args) == 1 and not node.keywords \
+                and isinstance(node.args[0], ast.Name) and env.get(node.args[0].id, (None, None))[1] == 'codec':
+            c, t = self.expr(f.value, env)
+            return self.hoist(f'({env[node.args[0].id][0]} {self.coerce(c, t, "str")})', 'bytes')
+        if isinstance(f, ast.Name) and f.id in getattr(self, 'extern', {}):
+            ptypes, rtype, partial = self.extern[f.id]
+            if len(node.args) != len(ptypes) or node.keywords:
+                raise Untranslatable(f'call of the external function {f.id} with unexpected arguments')
+            codes = [self.coerce(*self.expr(a, env), pt) for a, (_, pt) in zip(node.args, ptypes)]
+            code = f'(ext{f.id} ' + ' '.join(codes) + ')'
+            return self.hoist(code, rtype) if partial else (code, rtype)
         if isinstance(f, ast.Attribute) and len(node.keywords) == 1 and node.keywords[0].arg == 'byteorder' \
                 and isinstance(node.keywords[0].value, ast.Constant) and node.keywords[0].value.value == 'big' \
                 and len(node.args) == 1:
@@ -478,6 +516,8 @@ class Translator:
             args = node.args
             if name == 'len' and len(args) == 1:
                 c, t = self.expr(args[0], env)
+                if t == 'sb':
+                    return f'(Rt.sbLen {c})', 'int'
                 if not is_seq(t):
                     raise Untranslatable('len of a non-sequence')
                 return f'(Rt.len {c})', 'int'
@@ -512,6 +552,20 @@ class Translator:
                 if t not in ('bytes', 'asciibytes'):
                     raise Untranslatable('array("B", x) of a non-bytes value')
                 return c, 'bytes'       # an array of unsigned bytes: the same sequence
+            if name == 'format' and len(args) == 2 and isinstance(args[1], ast.BinOp) and isinstance(args[1].op, ast.Add) \
+                    and isinstance(args[1].left, ast.Constant) and args[1].left.value in ('0', '<') \
+                    and isinstance(args[1].right, ast.Call) and isinstance(args[1].right.func, ast.Name) \
+                    and args[1].right.func.id == 'str' and len(args[1].right.args) == 1:
+                # format(n, '0' + str(w)): zero-padded number; format(s, '<' + str(w)): text left-justified with blanks
+                c, t = self.expr(args[0], env)
+                w, wt = self.expr(args[1].right.args[0], env)
+                if wt != 'int':
+                    raise Untranslatable('format width is not an int')
+                if args[1].left.value == '0' and t == 'int':
+                    return f'(Rt.fmtIntW ({w}).toNat {c})', 'str'
+                if args[1].left.value == '<' and t in ('str', 'char'):
+                    return f'(Rt.fmtLeft {w} {self.coerce(c, t, "str")})', 'str'
+                raise Untranslatable('format with a computed specification')
             if name == 'format' and len(args) == 2 and isinstance(args[1], ast.Constant) and args[1].value == 'x':
                 c, t = self.expr(args[0], env)
                 if t != 'int':
@@ -896,6 +950,8 @@ class Translator:
                 raise NeedMonad()
             exc = s.exc.func.id if isinstance(s.exc, ast.Call) and isinstance(s.exc.func, ast.Name) else \
                 s.exc.id if isinstance(s.exc, ast.Name) else None
+            if exc in ('Iso8583DataError', 'MciIpmDataError', 'CardutilError'):
+                return '.dataError'            # the library's own data error (message text not modelled)
             if exc not in EXC:
                 raise Untranslatable(f'raise of {exc}')
             return f'.escape .{EXC[exc]}'
@@ -907,6 +963,17 @@ class Translator:
             if not loop:
                 raise Untranslatable('continue outside a loop')
             return self.loop_end(loop)
+        if isinstance(s, ast.If) and isinstance(s.test, ast.Call) and isinstance(s.test.func, ast.Name) \
+                and s.test.func.id == 'isinstance' and len(s.test.args) == 2 and isinstance(s.test.args[0], ast.Name) \
+                and isinstance(s.test.args[1], ast.Name) and s.test.args[1].id == 'bytes' \
+                and env.get(s.test.args[0].id, (None, None))[1] == 'sb':
+            # isinstance(v, bytes) on a str-or-bytes value: a match that narrows the type in each branch
+            x = s.test.args[0].id
+            envb, envs = dict(env), dict(env)
+            envb[x], envs[x] = (x, 'bytes'), (x, 'str')
+            then = self.stmts(s.body if self.terminates(s.body) else s.body + rest, envb, ret, loop)
+            other = self.stmts(s.orelse + rest if not self.terminates(s.orelse) else s.orelse, envs, ret, loop)
+            return f'match {env[x][0]} with\n  | Rt.SB.bytes {x} =>\n    ({then})\n  | Rt.SB.str {x} =>\n    ({other})'
         if isinstance(s, ast.If) and isinstance(s.test, ast.Compare) and len(s.test.ops) == 1 \
                 and isinstance(s.test.ops[0], (ast.Eq, ast.NotEq)) and isinstance(s.test.left, ast.Constant) \
                 and isinstance(s.test.comparators[0], ast.Constant):
@@ -1101,8 +1168,10 @@ def translate_function(mod_ast, fdef, ptypes, ret, known, cls=None, opts=None):
             raise Untranslatable('non-literal default')
         defaults[a.arg] = d.value
     env = {n: (n, t) for n, t in params}
+    extern = opts.get('extern', {})
     for monadic in (False, True):
         tr = Translator(mod_ast, known, hints)
+        tr.extern = extern
         tr.monadic = monadic
         tr.uses_fuel = False
         tr.self_state = state_ast
@@ -1120,6 +1189,10 @@ def translate_function(mod_ast, fdef, ptypes, ret, known, cls=None, opts=None):
         except NeedMonad:
             continue
         sig = ' '.join(f'({n} : {lean_type(t)})' for n, t in params)
+        for en, (eptypes, ert, epartial) in extern.items():
+            et = ' → '.join(lean_type(pt) for _, pt in eptypes) + ' → ' + \
+                (f'Outcome {lean_type(ert)}' if epartial else lean_type(ert))
+            sig = f'(ext{en} : {et}) ' + sig
         if tr.uses_fuel:
             sig = '(fuel : Nat) ' + sig
         rt = lean_type(ret)
